@@ -11,7 +11,7 @@
 (* The lowering operators take the deviation set as a parameter: the *design* (devs = {}) must  *)
 (* satisfy DesignOK, the *implementation model* (devs = Deviations) is what the conformance     *)
 (* harness compares the real converter / eager tensor with.                                     *)
-EXTENDS Tensor, TLC
+EXTENDS Tensor, TLC, Json
 
 CONSTANTS Deviations,       \* subset of {"slice_neg_clamp","conv_axis_shift","eager_axis_shift"}
           Shapes,           \* set of shapes (sequences of dims)
@@ -203,6 +203,9 @@ DesignOK == stage = "done" => /\ (convIdeal = np \/ IsErr(convIdeal))
 \* Every departure of the implementation model from NumPy is explained by a named deviation.
 DeviationsExplain == stage = "done" => /\ (conv = np \/ IsErr(conv) \/ convWhy # {})
                                        /\ (eager = np \/ IsErr(eager) \/ eagerWhy # {})
+\* one JSON line per case for the conformance harness
+Emit == stage = "done" => PrintT(<<"CASE", ToJson([shape |-> shape, idx |-> idx, np |-> np, conv |-> conv, eager |-> eager,
+                                                    convWhy |-> convWhy, eagerWhy |-> eagerWhy])>>)
 \* non-vacuity: the design is not "always error"
 SomeSuccess == ~(stage = "done" /\ ~IsErr(np) /\ convIdeal = np /\ eagerIdeal = np /\ Len(idx) = Len(shape) /\ Len(shape) >= 2)
 
@@ -212,8 +215,10 @@ R1(D) == {<<a>> : a \in D}
 R2(D) == {<<a, b>> : a \in D, b \in D}
 R3(D) == {<<a, b, c>> : a \in D, b \in D, c \in D}
 ShapesQuick == R1(1..4) \cup R2({1, 2, 4}) \cup {<<3, 3>>} \cup {<<2, 1, 3>>, <<3, 2, 1>>, <<2, 2, 2>>}
-ShapesThorough == R1(1..4) \cup R2(1..4) \cup R3(1..3) \cup {<<4, 1, 2>>, <<1, 4, 4>>, <<2, 3, 4>>, <<4, 4, 4>>}
+ShapesThorough == R1(1..4) \cup R2(1..4) \cup R3({1, 3}) \cup {<<2, 2, 2>>, <<2, 1, 3>>, <<3, 2, 1>>, <<4, 1, 2>>, <<2, 3, 4>>}
+ShapesFull2 == {<<2, 3>>, <<1, 4>>, <<4, 1>>, <<3, 3>>}      \* rank-2 shapes explored with one unrestricted component
 FullQuick == {1}
-FullThorough == {1, 2}
+FullThorough == {1}
+Full2 == {2}
 NoDevs == {}
 =============================================================================
